@@ -52,6 +52,9 @@ def project_list(tier):
     for nj in (1, 2):
         out.append((f"glob_product_late:j{nj}", ("f_fail", {"kind": "globprod2"}), {"njob": nj}, False,
                     ("f_fail", {"kind": "globprod1"})))
+    # second build after a static input was replaced by a directory: the start-up scan cannot
+    # hash it, reports an error and drains before the phase starts
+    out.append(("static_became_dir", ("f_chain", {}), {"njob": 2}, False, ("f_chain", {}), [("to_dir", "src.txt")]))
     # second builds: the first build leaves failed steps behind, the plan is then repaired
     for kg in (False, True):
         for first in ("child_and_plan_fail", "fail", "plan_fails"):
@@ -61,14 +64,19 @@ def project_list(tier):
 
 
 def drain_events(sim):
-    if sim.handler is None or "drained" in sim.flags or not sim.running:
+    """A drain request at any quiescent point while a step runs, and also before the first step
+    of the session was started (the request then precedes the build phase)."""
+    if sim.handler is None or "drained" in sim.flags:
+        return []
+    early = not any(rec[1] == "START" for rec in sim.log)
+    if not sim.running and not early:
         return []
 
     def fn(s):
         s.flags.add("drained")
         s.loop.create_task(s.handler.drain())
 
-    return [EnvEvent("drain", fn)]
+    return [EnvEvent("drain-early" if early and not sim.running else "drain", fn)]
 
 
 def _run(spec, prefix):
@@ -81,6 +89,8 @@ def _run(spec, prefix):
         session(w, {k: v for k, v in spec["cfg"].items() if k not in ("targets", "target_dirs")}, ())
         from .. import hist
         hist.sync(w, files1, getattr(projects, fam)(**knobs))
+        for action, path in spec.get("act") or ():
+            hist.user_action(w, action, path)
     else:
         w = fresh_world(getattr(projects, fam)(**knobs), "c19")
     cfg = dict(spec["cfg"])
@@ -139,6 +149,14 @@ def analyse(obs):
                     f"invalid target: {invalid_target}"))
     if invalid_target:
         return out
+    # "zero only if ... nothing questionable was found": an ERROR line is a finding
+    errors = [r[1] for r in obs.reports if r[0] == "ERROR"]
+    if errors and rc == 0:
+        out.append(("zero-despite-error", f"exit status 0 although an error was reported: {errors[0][:120]}"))
+    # a drain requested by the harness itself (independent of the scheduler's own flag)
+    if "drained" in getattr(obs, "flags", ()) and not rc & DRAINED:
+        out.append(("drain-request-forgotten", f"a drain was requested during the session but the "
+                    f"DRAINED bit is not set (rc={obs.rc_class})"))
     # DRAINED bit
     if bool(rc & DRAINED) != bool(obs.draining):
         out.append(("drained-bit", f"DRAINED bit is {bool(rc & DRAINED)}, scheduler draining: {obs.draining}"))
@@ -193,7 +211,7 @@ def jobs(tier, seed):
     for entry in project_list(tier):
         name, proj, cfg, drain = entry[:4]
         spec = {"name": name, "proj": proj, "cfg": cfg, "drain": drain, "bound": bound,
-                "first": entry[4] if len(entry) > 4 else None}
+                "first": entry[4] if len(entry) > 4 else None, "act": entry[5] if len(entry) > 5 else None}
         if tier == "quick":
             out.append({**spec, "root": [], "only_root": False})
         else:
